@@ -246,6 +246,11 @@ def _leftover_fusion_ops(proto):
                    if n.domain == "ai.onnxruntime._fusion" and (n.domain, n.op_type) not in fdoms})
 
 
+def _op_multiset(proto):
+    import collections
+    return collections.Counter((n.domain, n.op_type) for n in proto.graph.node if n.op_type != "Constant")
+
+
 def _fused_ops(proto):
     return sorted({f"{n.op_type}" for n in proto.graph.node if n.domain == "com.microsoft"
                    or n.op_type in ("SimplifiedLayerNormalization",)})
@@ -301,6 +306,7 @@ def _observe(fam, cfg):
 
     # (a) single fusion function(s)
     prep_bad = None
+    base_ops = None
     for fname, chain in fam["fusions"](cfg):
         try:
             model = _prepare(m0)
@@ -311,6 +317,8 @@ def _observe(fam, cfg):
             continue
         p1 = _to_proto(model)
         fp1 = cb.fingerprint(p1)
+        if base_ops is None:
+            base_ops = _op_multiset(p1)
         cnts = []
         ctx = {}
         try:
@@ -364,9 +372,12 @@ def _observe(fam, cfg):
         extra_eval += 1
         fired = sorted(k for k, v in fc.items() if v)
         ms_ops = sorted(set(_fused_ops(p3)) - set(_fused_ops(m0)))
+        # the pattern rule sets run by optimize_for_ort (softmax, fused matmul, instance->group norm) are not in
+        # fusion_count: detect their effect by the operator multiset relative to the merely optimize()d model
+        changed = base_ops is not None and _op_multiset(p3) != base_ops
         res, v = check_exec(tag, p3)
         if res.startswith("fused"):
-            res = ("fused-ok" if (fired or ms_ops) else "nofusion-ok") + res[len("fused-ok"):]
+            res = ("fused-ok" if (fired or ms_ops or changed) else "nofusion-ok") + res[len("fused-ok"):]
         per[tag] = res + (f"[{','.join(fired)}]" if fired else "")
         if v is not None:
             viols.append((v[0], tag, v[2] + f" (fusion_count fired: {fired}, fused ops: {ms_ops})"))
